@@ -6,7 +6,9 @@ package main
 
 // what the command line says is what Sync.Run gets (C12): workers, delay, the asset list, and a default start date
 // that lies `-days` calendar days before now (time.Time.AddDate). Flag values are not validated by the program: what
+// the program does not reassign the variables the flag package fills in (attr frozen); what
 // Sync.Run requires of them (distinct asset names, a delay that fits a Duration, ...) is assumed here and listed.
 //@ func main
 //@ attr callrequires = assumed
+//@ attr frozen = sourceName, sourceConfig, targetName, targetConfig, minusDays, workers, delay
 //@ guarantees[C12] "default-start-date-is-days-before-now" arg(Sync_Run, 0, 2) == res(time_Now, 0) - 86400 * minusDays
